@@ -49,7 +49,7 @@ Lemma tag_M_FIELD : str_eqb s_METHOD s_FIELD = false. Proof. reflexivity. Qed.
 
 (* ---------- COMMENT lines ---------- *)
 
-Definition c_elines (d : nat) (L : list str) : list eline := map (fun l => mkEline d s_COMMENT (split_ws l)) L.
+Definition c_elines (d : nat) (L : list str) : list eline := map (fun l => mkEline d s_COMMENT [l]) L.
 
 Lemma e_comments_c d doc : e_comments d doc = match doc with None => [] | Some s => c_elines d (split_on cLF s) end.
 Proof. reflexivity. Qed.
@@ -60,25 +60,21 @@ Proof.
   apply Nat.compare_lt_iff in H. rewrite H. reflexivity.
 Qed.
 
-Lemma comments_loop_list d L : forall acc rest, (forall l, In l L -> sp_only l = true) -> stops d rest ->
+Lemma comments_loop_list d L : forall acc rest, stops d rest ->
   comments_loop d acc (c_elines d L ++ rest) = Ok (fold_left ins_doc L acc, rest).
 Proof.
-  induction L as [|l L IH]; intros acc rest Hsp Hr.
+  induction L as [|l L IH]; intros acc rest Hr.
   - apply comments_loop_stop. exact Hr.
   - cbn [c_elines map app comments_loop el_ind el_first]. rewrite Nat.compare_refl, tag_CC.
-    rewrite ins_comment_doc, (join_split_ws l) by (apply Hsp; left; reflexivity).
-    apply IH; [|exact Hr]. intros x Hx. apply Hsp. right. exact Hx.
+    rewrite ins_comment_doc. apply IH. exact Hr.
 Qed.
 
-Lemma doc_lines_sp doc : docb doc = true -> forall s, doc = Some s -> forall l, In l (split_on cLF s) -> sp_only l = true.
-Proof. intros Hd s -> l Hl. eapply doc_line_sp_only; eauto. Qed.
-
-Lemma comments_loop_doc d doc rest : docb doc = true -> stops d rest ->
+(* whatever the comment contains: the reader takes the text of a COMMENT line as it is *)
+Lemma comments_loop_doc d doc rest : stops d rest ->
   comments_loop d None (e_comments d doc ++ rest) = Ok (doc, rest).
 Proof.
-  intros Hd Hr. rewrite e_comments_c. destruct doc as [s|].
-  - rewrite comments_loop_list; [rewrite fold_ins_doc_split; reflexivity| |exact Hr].
-    eapply doc_lines_sp; eauto.
+  intros Hr. rewrite e_comments_c. destruct doc as [s|].
+  - rewrite comments_loop_list; [rewrite fold_ins_doc_split; reflexivity|exact Hr].
   - apply comments_loop_stop. exact Hr.
 Qed.
 
@@ -114,18 +110,17 @@ Proof.
 Qed.
 
 Lemma method_loop_comments d desc nm ps L : forall doc F rest',
-  (forall l, In l L -> sp_only l = true) -> (length (c_elines d L ++ rest') < F)%nat ->
+  (length (c_elines d L ++ rest') < F)%nat ->
   exists F', (length rest' < F')%nat /\
     method_loop F d (mkMeth desc nm doc ps) (c_elines d L ++ rest')
     = method_loop F' d (mkMeth desc nm (fold_left ins_doc L doc) ps) rest'.
 Proof.
-  induction L as [|l L IH]; intros doc F rest' Hsp HF.
+  induction L as [|l L IH]; intros doc F rest' HF.
   - exists F. split; [exact HF|reflexivity].
   - destruct F as [|f]; [lia|]. cbn [c_elines map app]. rewrite method_loop_step.
     cbn [el_ind el_first]. rewrite Nat.compare_refl, tag_C_ARG, tag_CC.
-    cbn [set_mdoc m_desc m_names m_doc m_params]. rewrite ins_comment_doc, (join_split_ws l) by (apply Hsp; left; reflexivity).
+    cbn [set_mdoc m_desc m_names m_doc m_params]. rewrite ins_comment_doc.
     destruct (IH (ins_doc doc l) f rest') as (F' & HF' & E).
-    { intros x Hx. apply Hsp. right. exact Hx. }
     { cbn [c_elines map app length] in HF. fold (c_elines d L) in HF. lia. }
     exists F'. split; [exact HF'|]. exact E.
 Qed.
@@ -160,7 +155,7 @@ Proof.
     rewrite has_param_false.
     2:{ rewrite map_app in Hnd. cbn [map] in Hnd. apply NoDup_remove_2 in Hnd. intros Hin. apply Hnd.
         apply in_or_app. left. exact Hin. }
-    rewrite <- app_assoc. rewrite comments_loop_doc; [|exact Hdoc|].
+    rewrite <- app_assoc. rewrite comments_loop_doc.
     2:{ apply stops_flat_map; [|exact Hr]. intros x _. destruct (e_param_head d x) as (tl & ->).
         eexists; eexists; split; [reflexivity|cbn [el_ind]; lia]. }
     cbn [bind fst snd]. unfold add_param. cbn [m_desc m_names m_doc m_params].
@@ -193,7 +188,6 @@ Proof.
   destruct (m_doc m) as [s|] eqn:Edoc.
   - destruct (method_loop_comments (S d) (m_desc m) [Some (src_of (m_names m)); meth_dst m] [] (split_on cLF s) None F
                (flat_map (e_param (S d)) (isort param_wleb (m_params m)) ++ rest')) as (F1 & HF1 & E1).
-    { eapply doc_lines_sp; [|reflexivity]. exact H2. }
     { exact HF. }
     rewrite E1, fold_ins_doc_split.
     destruct (method_loop_params (S d) (m_desc m) [Some (src_of (m_names m)); meth_dst m] (Some s) (isort param_wleb (m_params m)) [] F1 rest' Hps Hnd)
